@@ -15,6 +15,7 @@ import (
 	"github.com/agglayer/aggkit/lastgersync"
 	aggsync "github.com/agglayer/aggkit/sync"
 	"github.com/ethereum/go-ethereum/common"
+	"verifharness/faultdb"
 	"verifharness/world"
 )
 
@@ -27,6 +28,8 @@ type store struct {
 	DB      *sql.DB
 	process func(ctx context.Context, b aggsync.Block) error
 	reorg   func(ctx context.Context, n uint64) error
+	Fault   *faultdb.Controller // non-nil when opened through the fault-injecting driver
+	Proc    any                 // the real processor (usable behind a real sync.EVMDriver)
 }
 
 func (s *store) Process(b aggsync.Block) error {
@@ -71,6 +74,40 @@ func openStore(kind, path string) (*store, error) {
 		return &store{Kind: kind, Path: path, Facade: s, DB: s.VerifDB(), process: s.VerifProcessBlock, reorg: s.VerifReorg}, nil
 	}
 	return nil, fmt.Errorf("unknown store kind %s", kind)
+}
+
+// openFaultStore opens the store on a database handle that goes through the fault driver
+func openFaultStore(kind, path string) (*store, error) {
+	dbh, ctl, err := faultdb.Open(path)
+	if err != nil {
+		return nil, err
+	}
+	dbh.SetMaxOpenConns(4)
+	switch kind {
+	case "bridge":
+		s, err := bridgesync.VerifNewBridgeSyncWithDB(path, "verif", 1, dbh)
+		if err != nil {
+			return nil, err
+		}
+		return &store{Kind: kind, Path: path, Facade: s, DB: dbh, process: s.VerifProcessBlock, reorg: s.VerifReorg, Fault: ctl, Proc: s.VerifProcessor()}, nil
+	case "l1info":
+		s, err := l1infotreesync.VerifNewWithDB(path, dbh)
+		if err != nil {
+			return nil, err
+		}
+		return &store{Kind: kind, Path: path, Facade: s, DB: dbh, process: s.VerifProcessBlock, reorg: s.VerifReorg, Fault: ctl, Proc: s.VerifProcessor()}, nil
+	case "ger":
+		s, err := lastgersync.VerifNewWithDB(path, dbh)
+		if err != nil {
+			return nil, err
+		}
+		return &store{Kind: kind, Path: path, Facade: s, DB: dbh, process: s.VerifProcessBlock, reorg: s.VerifReorg, Fault: ctl, Proc: s.VerifProcessor()}, nil
+	}
+	return nil, fmt.Errorf("unknown store kind %s", kind)
+}
+
+func newFaultStore(kind, tag string) (*store, error) {
+	return openFaultStore(kind, filepath.Join(scratchDir(tag), kind+".sqlite"))
 }
 
 func newStore(kind, tag string) (*store, error) {
